@@ -3,7 +3,7 @@
 ID=$1; shift
 for k in "$@"; do
   n=${ID}_$k
-  src=/tmp/incoming_r2/$n; rm -rf $src; mkdir -p $src
+  src=/tmp/incoming/$n; rm -rf $src; mkdir -p $src
   cp -r /tmp/wt/$ID/_out/$k/* $src/ 2>/dev/null || { echo "$n: no output"; continue; }
   RACE=""; grep -q 'go:build race\|+build race' $src/demo_test.go 2>/dev/null && RACE=1
   if [ -n "$RACE" ]; then echo "$n: demo needs -race: confirm by hand"; continue; fi
